@@ -167,7 +167,7 @@ ValueChoice choose_value(uint64_t run_seed, size_t max_budget) {
         void *st = value_from_spec(ntd, spec);
         if(st) { c.td = ntd; c.origin = spec; c.st = st; G.add("reach.nested_values"); reach_probes(c); return c; }
     }
-    if(fillable(c.td)) {
+    if(fillable(c.td) && !(rv.chance(1, 4) && !seed_value_texts(c.td).empty())) {      // 1 in 4 from the seed texts where a fillable type has some
         size_t budget = 8 + (size_t)rv.below(max_budget - 7);
         if(rv.chance(1, 4)) budget = 8 + (size_t)rv.below(40);
         else if(max_budget >= 160 && !is_recursive(c.td) && rv.chance(1, 12)) budget = 16000 + (size_t)rv.below(54000);   // long strings / lists: 16K fragmentation, multi-octet lengths
